@@ -118,6 +118,17 @@ func (p *Program) verifyFunc(fn *ssa.Function, ct *Contract, sweepOnly bool) (re
 		o.Expect = "sat"
 	}
 	ex.run(fr, st.clone())
+	// a guard that matched no site checks nothing: report it instead of passing silently
+	if ct != nil {
+		for _, g := range ct.Guards {
+			if g.Kind == "sort" {
+				continue
+			}
+			if ex.top.oblCount[fmt.Sprintf("guardhit:%p", g)] == 0 {
+				vc.oblige(&Obligation{Name: fmt.Sprintf("%s#guard(%s %s).nosite", key, g.Kind, g.Name), Kind: "static", PC: "true", Goal: "false", Text: "guard matches no site in the function: " + g.C.Text, Fn: key})
+			}
+		}
+	}
 	// returns
 	sort.SliceStable(fr.rets, func(i, j int) bool { return fr.rets[i].pos < fr.rets[j].pos })
 	if ct != nil && len(fr.rets)*(len(ct.Ensures)+1) > 48 && len(fr.rets) > 1 && ct.Opts["perreturn"] == "" {
@@ -411,7 +422,7 @@ func (p *Program) verifyLemma(lm *Lemma) (res *FuncResult) {
 	key := lm.PkgPath + "." + lm.Name
 	vc := newVC(p, lm.Mode)
 	res = &FuncResult{Key: key, VC: vc, Lemma: true}
-	ex := &Exec{vc: vc, prog: p}
+	ex := &Exec{vc: vc, prog: p, provingLemma: lm}
 	defer func() {
 		if r := recover(); r != nil {
 			switch e := r.(type) {
